@@ -590,8 +590,14 @@ fn is_err_ans(a: &str) -> bool {
 }
 
 /// `x` shows #NUM! on its own but is a *number* inside a formula: a non-finite intermediate (F06e)
+/// For an array-valued `x` (e.g. a 1x1 array `IFERROR(C1:C1,D2:D2)^(-A4)` = {0^-1000} = {inf}) ISNUMBER
+/// of the array is FALSE, so the element is probed through SUM: SUM propagates a genuine error
+/// element (then ISNUMBER(SUM(x)) is FALSE) but adds up non-finite *numbers* (TRUE). AND/OR treat such
+/// an element as a truthy number, which is the F06e mechanism, not a swallowed error (F06a).
 fn nonfinite_intermediate(m: &mut Model, x: &E, alone: &str) -> bool {
-    alone == "V eNUM" && eval_formula(m, &format!("ISNUMBER({})", render(x))) == "V b1"
+    alone == "V eNUM"
+        && (eval_formula(m, &format!("ISNUMBER({})", render(x))) == "V b1"
+            || (arrayish(x) && eval_formula(m, &format!("ISNUMBER(SUM({}))", render(x))) == "V b1"))
 }
 
 /// implementation-level oracles on the top node of the program
@@ -772,6 +778,8 @@ fn gen_programs(ctx: &Ctx, sink: &mut dyn FnMut(String)) {
         // F06d: a text cell as an element of an array operand vs as a scalar operand
         E::Bin("add", Box::new(lit(1.0)), Box::new(E::Range(2, 1, 3, 1))),
         E::Call("COUNT", vec![E::Ref(3, 1), E::Lit(V::Bool(true)), E::Lit(V::Str("12".into())), E::Ref(1, 2)]),
+        // F06e inside a 1x1 array argument of AND (C1 is empty: {0}^(-7) = {inf}); must be classified F06e, not F06a
+        E::Call("AND", vec![E::Lit(V::Bool(true)), E::Bin("pow", Box::new(E::Call("IFERROR", vec![E::Range(1, 3, 1, 3), E::Range(2, 4, 2, 4)])), Box::new(E::Neg(Box::new(E::Ref(2, 1)))))]),
         // F06e: an overflowing product is a number inside the formula, #NUM! only when stored
         E::Bin("eq", Box::new(lit(1.0)), Box::new(E::Bin("mul", Box::new(lit(1e200)), Box::new(lit(1e200))))),
     ];
